@@ -512,7 +512,7 @@ def write_evidence(prop, tier, seed, coverage, wall, violations, assumptions):
     os.replace(tmp, os.path.join(EVIDENCE, prop + ".json"))
 
 
-from props import run_property, selftest_determinism, setup_all  # noqa: E402
+from props import run_property, selftest_determinism, selftest_mutants, setup_all  # noqa: E402
 
 
 def main(argv):
@@ -526,6 +526,8 @@ def main(argv):
             what = argv[1] if len(argv) > 1 else "determinism"
             if what == "determinism":
                 return selftest_determinism(argv[2:])
+            if what == "mutants":
+                return selftest_mutants(argv[2:])
             print("unknown selftest", what)
             return 2
         prop = argv[0]
